@@ -234,3 +234,162 @@ def mutate_text(rng, text, n=None):
                 lines[i], lines[j] = lines[j], lines[i]
             text = "\n".join(lines)
     return text
+
+
+# ---------------------------------------------------------------------------
+# Semantic-level mutations: keep the text (mostly) parseable while breaking
+# assumptions of later compiler passes.
+# ---------------------------------------------------------------------------
+
+EXTREME_NUMBERS = ["0", "1", "2", "7", "8", "9", "15", "16", "31", "32", "33", "63", "64", "65", "128",
+                   "255", "256", "2147483647", "2147483648", "4294967295", "4294967296",
+                   "9223372036854775807", "9223372036854775808", "18446744073709551615",
+                   "18446744073709551616", "340282366920938463463374607431768211456",
+                   "0x7fff_ffff_ffff_ffff", "0xffff_ffff_ffff_ffff", "0b1", "1_000_000"]
+BUILTIN_EXPRS = ["$next", "$size_in_bytes", "$size_in_bits", "$max_size_in_bytes", "$min_size_in_bytes",
+                 "$max_size_in_bits", "$min_size_in_bits", "$is_statically_sized", "$static_size_in_bits",
+                 "$default", "$present(x)", "$max(1, 2)", "$max()", "$upper_bound(x)", "$lower_bound(0)",
+                 "true", "false", "this", "$present()"]
+PRELUDE_TYPES = ["UInt", "Int", "Flag", "Bcd", "Float", "UInt:8", "Int:16", "UInt:64", "Int:64", "UInt:65",
+                 "UInt:0", "Float:32", "Float:33", "Bcd:4", "Flag:2", "UInt[]", "UInt:8[]", "UInt:8[4]",
+                 "UInt:8[2][3]", "UInt:8[][2]", "Foo", "Foo(1)", "Foo(x, y)", "Foo()"]
+ATTRS = ['[requires: this > 0]', '[requires: true]', '[requires: 1]', '[requires: x == 1]',
+         '[byte_order: "BigEndian"]', '[byte_order: "LittleEndian"]', '[byte_order: "Null"]',
+         '[byte_order: "Middle"]', '[byte_order: 1]', '[$default byte_order: "LittleEndian"]',
+         '[text_output: "Skip"]', '[text_output: "Emit"]', '[text_output: "Foo"]',
+         '[(cpp) namespace: "a::b"]', '[(cpp) namespace: ""]', '[(cpp) enum_case: "kCamelCase"]',
+         '[(cpp) enum_case: "SHOUTY_CASE, kCamelCase"]', '[(cpp) enum_case: "bad"]',
+         '[(java) foo: 1]', '[fixed_size_in_bits: 8]', '[fixed_size_in_bits: x]', '[is_signed: true]',
+         '[is_signed: 1]', '[maximum_bits: 8]', '[maximum_bits: 0]', '[maximum_bits: 65]',
+         '[maximum_bits: 64]', '[static_requirements: $size_in_bits == 8]', '[addressable_unit_size: 3]',
+         '[is_integer: true]', '[unknown_attr: 3]', '[requires: this]', '[$default requires: true]',
+         '[requires: $next > 0]', '[byte_order: "BigEndian"] [byte_order: "BigEndian"]',
+         '[can_hold_uninitialized_data: true]', '[size_in_bits: 8]']
+OPERATORS = ["+", "-", "*", "==", "!=", "<", ">", "<=", ">=", "&&", "||"]
+
+
+def _names(text):
+    snake = sorted(set(re.findall(r"\b[a-z][a-z_0-9]*\b", text)) - set(KEYWORDS) - {"true", "false"})
+    camel = sorted(set(re.findall(r"\b[A-Z][a-zA-Z0-9]*[a-z][a-zA-Z0-9]*\b", text)))
+    shouty = sorted(set(re.findall(r"\b[A-Z][A-Z_0-9]*[A-Z_][A-Z_0-9]*\b", text)))
+    return snake or ["x"], camel or ["Foo"], shouty or ["AA"]
+
+
+def rand_expr(rng, snake, camel, shouty, depth=0):
+    r = rng.random()
+    if depth > 3 or r < 0.35:
+        k = rng.random()
+        if k < 0.35:
+            return rng.choice(snake)
+        if k < 0.55:
+            return rng.choice(EXTREME_NUMBERS)
+        if k < 0.7:
+            return rng.choice(BUILTIN_EXPRS).replace("x", rng.choice(snake))
+        if k < 0.8:
+            return "%s.%s" % (rng.choice(camel), rng.choice(shouty))
+        if k < 0.9:
+            return "%s.%s" % (rng.choice(snake), rng.choice(snake + ["$size_in_bytes", "$max_size_in_bits"]))
+        return "%s.%s" % (rng.choice(camel), rng.choice(snake + ["$size_in_bits", "$max_size_in_bytes"]))
+    if r < 0.75:
+        return "%s %s %s" % (rand_expr(rng, snake, camel, shouty, depth + 1), rng.choice(OPERATORS),
+                             rand_expr(rng, snake, camel, shouty, depth + 1))
+    if r < 0.85:
+        return "(%s)" % rand_expr(rng, snake, camel, shouty, depth + 1)
+    if r < 0.92:
+        return "%s ? %s : %s" % (rand_expr(rng, snake, camel, shouty, depth + 1),
+                                 rand_expr(rng, snake, camel, shouty, depth + 1),
+                                 rand_expr(rng, snake, camel, shouty, depth + 1))
+    fn = rng.choice(["$max", "$present", "$upper_bound", "$lower_bound"])
+    args = ", ".join(rand_expr(rng, snake, camel, shouty, depth + 1) for _ in range(rng.choice([0, 1, 1, 2, 3])))
+    return "%s(%s)" % (fn, args)
+
+
+def deep_expr(rng, snake, n):
+    """Nesting depth n (<= 40 per the property's practical bound)."""
+    e = rng.choice(snake + ["1"])
+    for _ in range(n):
+        k = rng.random()
+        if k < 0.4:
+            e = "(%s + 1)" % e
+        elif k < 0.6:
+            e = "$max(%s, 0)" % e
+        elif k < 0.8:
+            e = "(%s == 0 ? 1 : %s)" % (rng.choice(snake), e)
+        else:
+            e = "-(%s)" % e
+    return e
+
+
+def semantic_mutate(rng, text, n=None):
+    n = n if n is not None else rng.randint(1, 3)
+    for _ in range(n):
+        snake, camel, shouty = _names(text)
+        lines = text.split("\n")
+        r = rng.random()
+        if r < 0.18:
+            ms = list(re.finditer(r"\b(0x[0-9a-fA-F_]+|0b[01_]+|[0-9][0-9_]*)\b", text))
+            if ms:
+                m = rng.choice(ms)
+                text = text[:m.start()] + rng.choice(EXTREME_NUMBERS) + text[m.end():]
+        elif r < 0.36:
+            ms = list(re.finditer(r"(?<![$\w])[a-z][a-z_0-9]*\b", text))
+            ms = [m for m in ms if m.group(0) not in KEYWORDS and m.group(0) not in ("true", "false")]
+            if ms:
+                m = rng.choice(ms)
+                rep = rng.choice(snake) if rng.random() < 0.6 else rng.choice(BUILTIN_EXPRS).replace("x", rng.choice(snake))
+                if rng.random() < 0.15:
+                    rep = rand_expr(rng, snake, camel, shouty, 2)
+                text = text[:m.start()] + rep + text[m.end():]
+        elif r < 0.48:
+            ms = list(re.finditer(r"\b[A-Z][a-zA-Z0-9]*[a-z][a-zA-Z0-9]*(:\d+)?", text))
+            if ms:
+                m = rng.choice(ms)
+                rep = rng.choice(camel) if rng.random() < 0.5 else rng.choice(PRELUDE_TYPES).replace("Foo", rng.choice(camel))
+                text = text[:m.start()] + rep + text[m.end():]
+        elif r < 0.56:
+            ms = list(re.finditer(r"==|!=|<=|>=|&&|\|\||[-+*<>]", text))
+            ms = [m for m in ms if not text[:m.start()].split("\n")[-1].lstrip().startswith(("#", "--"))]
+            if ms:
+                m = rng.choice(ms)
+                text = text[:m.start()] + rng.choice(OPERATORS) + text[m.end():]
+        elif r < 0.68:
+            # add an attribute after a field/type line, indented one deeper than it
+            idx = [i for i, l in enumerate(lines) if l.strip() and not l.strip().startswith(("#", "--", "["))]
+            if idx:
+                i = rng.choice(idx)
+                ind = re.match(r"\s*", lines[i]).group(0)
+                if rng.random() < 0.5:
+                    lines.insert(i + 1, ind + "  " + rng.choice(ATTRS).replace("x", rng.choice(snake)))
+                else:
+                    lines[i] = lines[i] + "  " + rng.choice(ATTRS).replace("x", rng.choice(snake))
+                text = "\n".join(lines)
+        elif r < 0.80:
+            # add a virtual field inside some struct body
+            idx = [i for i, l in enumerate(lines) if re.match(r"\s+\S", l) and not l.strip().startswith(("#", "--", "["))]
+            if idx:
+                i = rng.choice(idx)
+                ind = re.match(r"\s*", lines[i]).group(0)
+                e = rand_expr(rng, snake, camel, shouty) if rng.random() < 0.8 else deep_expr(rng, snake, rng.randint(5, 40))
+                kind = rng.random()
+                if kind < 0.6:
+                    new = "%slet %s = %s" % (ind, rng.choice(["v", "w", rng.choice(snake)]), e)
+                elif kind < 0.8:
+                    new = "%s%s [+%s]  %s  %s" % (ind, e, rng.choice(EXTREME_NUMBERS[:12] + [rng.choice(snake)]),
+                                                  rng.choice(PRELUDE_TYPES).replace("Foo", rng.choice(camel)),
+                                                  rng.choice(["zz", rng.choice(snake)]))
+                else:
+                    new = "%sif %s:\n%s  0 [+1]  UInt  %s" % (ind, e, ind, rng.choice(["qq", rng.choice(snake)]))
+                lines.insert(i, new)
+                text = "\n".join(lines)
+        elif r < 0.86:
+            # parameters
+            idx = [i for i, l in enumerate(lines) if re.match(r"(struct|bits)\s+\w+\s*:", l.strip())]
+            if idx:
+                i = rng.choice(idx)
+                p = rng.choice(["(p: UInt:8)", "(p: Int:64, q: UInt:1)", "(p: UInt)", "(p: Flag)", "(e: %s)" % rng.choice(camel),
+                                "(p: UInt:8[4])", "(p: UInt:65)", "()", "(p: %s:8)" % rng.choice(camel)])
+                lines[i] = re.sub(r"(\w)\s*:", lambda m: m.group(1) + p + ":", lines[i], count=1)
+                text = "\n".join(lines)
+        else:
+            text = mutate_text(rng, text, 1)
+    return text
